@@ -457,6 +457,7 @@ func stName(s int) string {
 	return "between 0 and 1"
 }
 
+var c33QuickIntervals = map[int]bool{1: true, 2: true, 3: true, 7: true, 16: true, 100: true, 999: true, 1000: true, 60000: true}
 var c33Intervals = []int{1, 2, 3, 5, 7, 10, 16, 33, 100, 250, 999, 1000, 1001, 5000, 60000}
 
 func init() {
@@ -488,6 +489,9 @@ func init() {
 				w.Phase(fmt.Sprintf("n=%d..%d x listed intervals", nLo, nHi), func() {
 					for n := nLo; n <= nHi; n++ {
 						for _, T := range c33Intervals {
+							if !w.Thorough() && !c33QuickIntervals[T] {
+								continue
+							}
 							w.Eval("wrap", fmt.Sprintf("n=%d T=%d boards=dummy", n, T))
 						}
 					}
@@ -500,8 +504,14 @@ func init() {
 					}
 				}
 			})
-			for n := 1; n <= 8; n += 2 {
-				dense(n, n+1, 150)
+			if !w.Thorough() {
+				for n := 1; n <= 6; n += 2 {
+					dense(n, n+1, 100)
+				}
+			} else {
+				for n := 1; n <= 8; n += 2 {
+					dense(n, n+1, 150)
+				}
 			}
 			for n := 1; n <= 150; n += 25 {
 				listed(n, n+24)
